@@ -3,6 +3,7 @@ package poolx
 import (
 	"bytes"
 	"fmt"
+	"os"
 	"reflect"
 	"sort"
 	"strings"
@@ -51,6 +52,8 @@ type Exec struct {
 	History   []string // compact log of the steps (replay record)
 	Events    int
 	dead      bool // the node panicked inside a mutating call; the history is abandoned
+	// DevPartial: the partial-add deviation is tolerated (see AddSet's weight accounting)
+	DevPartial bool
 	// Stub makes the HARNESS misreport the node on purpose (selftest of the binding):
 	// "lose-accepted": the last reported v2 transaction is hidden; "lookup-absent": found -> absent;
 	// "rebase-identity": a successful rebase is reported with the caller's old proofs
@@ -65,7 +68,7 @@ type pendingAdd struct {
 }
 
 func NewExec(s *Scen, res *hx.Result, tw *hx.TraceWriter, scIdx int) *Exec {
-	return &Exec{S: s, Res: res, TW: tw, ScIdx: scIdx, TwinEvery: 1, keep: map[types.TransactionID]bool{}, ephExposed: map[types.TransactionID]bool{}}
+	return &Exec{S: s, Res: res, TW: tw, ScIdx: scIdx, TwinEvery: 1, DevPartial: os.Getenv("VERIF_DEV_PARTIAL") == "1", keep: map[types.TransactionID]bool{}, ephExposed: map[types.TransactionID]bool{}}
 }
 
 func (x *Exec) emit(ev map[string]any) {
@@ -541,8 +544,10 @@ func (x *Exec) Obs() {
 		x.mismatch("audit:c05:invention", "the pool reports a transaction that was never submitted nor reverted: v1 %v v2 %v", p1, p2)
 	}
 	l := x.S.Node(x.Tip).L
-	// pool-full flag: weight of what the pool held before this query
-	full := x.accWeight >= l.CS.MaxBlockWeight()*10*95/100
+	// pool-full flag: the POOLED transactions (last report + accepted since) had reached the limit
+	// before this query -- the only situation in which revalidatePool may evict
+	wasWeight := x.accWeight
+	full := x.accWeight >= l.CS.MaxBlockWeight()*10
 	if full {
 		x.Res.Count("obs_pool_full", 1)
 		if x.poolWeight(v1, v2) < x.accWeight {
@@ -692,7 +697,7 @@ func (x *Exec) Obs() {
 			ver = "v2"
 		}
 		x.mismatch(fmt.Sprintf("audit:c05:retention:%s:%s", ver, shape),
-			"accepted transaction %d (%s, %s) is no longer in the reported pool %v %v at tip %d although it was not confirmed, none of its inputs was spent or reverted and the pool is not full", name, ver, shape, p1, p2, x.Tip)
+			"accepted transaction %d (%s, %s) is no longer in the reported pool %v %v at tip %d although it was not confirmed, none of its inputs was spent or reverted and the pool is not full (the pooled transactions weighed %d before this query, the limit is %d)", name, ver, shape, p1, p2, x.Tip, wasWeight, l.CS.MaxBlockWeight()*10)
 		delete(x.keep, p.ID)
 	}
 	x.Res.Count("retention_checks", 1)
@@ -937,15 +942,26 @@ func (x *Exec) AddSet(kind string, basis int, set []Inst) string {
 			}
 		}
 	}
-	// upper bound of the weight the pool may hold now: every member counts, whatever the reply (a
-	// rejected set may have been partly appended -- finding C14-partial-add-on-pool-conflict -- and
-	// its weight then triggers the eviction at the next query); `full` only PERMITS evictions
-	for _, t := range names {
-		p := x.S.Tx(t)
-		if p.V2 {
-			x.accWeight += x.S.Node(x.Tip).L.CS.V2TransactionWeight(p.T2)
-		} else {
-			x.accWeight += x.S.Node(x.Tip).L.CS.TransactionWeight(p.T1)
+	// weight of the POOLED transactions: what the last report held plus what this submission added.
+	// A rejected set adds nothing (all-or-nothing) -- unless the partial-add deviation is tolerated
+	// (VERIF_DEV_PARTIAL=1, finding C14-partial-add-on-pool-conflict open), in which case its members
+	// may have been appended and count as an upper bound.
+	if reply == "ok" || (reply == "err" && x.DevPartial) {
+		pooled := map[int]bool{}
+		for _, n := range append(append([]int{}, x.p1...), x.p2...) {
+			pooled[n] = true
+		}
+		for _, t := range names {
+			if pooled[t] || !x.isUnconfirmed(t) {
+				continue
+			}
+			pooled[t] = true
+			p := x.S.Tx(t)
+			if p.V2 {
+				x.accWeight += x.S.Node(x.Tip).L.CS.V2TransactionWeight(p.T2)
+			} else {
+				x.accWeight += x.S.Node(x.Tip).L.CS.TransactionWeight(p.T1)
+			}
 		}
 	}
 	if reply == "panic" {
